@@ -91,8 +91,10 @@ func resRunUnit(vw *verifWorld, script []resEv) (asks []resAsk, total int, errs 
 		case "record":
 			worker.UpdateBasicStatus(WorkStateRunning, "Running", written)
 		case "finish":
-			worker.UpdateBasicStatus(ev.St, "done", written)
+			// the flag first: a reader that ends its stream because it saw the final record must find the flag set
+			// (set after the write, a stream ended in between looked like one that ended early)
 			atomic.StoreInt32(&finished, 1)
+			worker.UpdateBasicStatus(ev.St, "done", written)
 		case "sleep":
 			time.Sleep(time.Duration(ev.N) * time.Millisecond)
 		case "ask":
